@@ -306,7 +306,10 @@ class ChunkStoreVisFlagsWeights(VisFlagsWeights):
                 errors=errors,
             )
         flags_orig_name = darray['flags'].name
-        flags_raw_name = store.join(chunk_info['flags']['prefix'], 'flags_raw')
+        # The raw flags depend on all the arrays (and their preselection), so give them a name that differs
+        # between objects sharing a prefix, which may well end up in the same dask graph
+        token = da.core.tokenize(*[array.name for array in darray.values()])
+        flags_raw_name = store.join(chunk_info['flags']['prefix'], 'flags_raw') + '-' + token
         # Combine original flags with data_lost indicating where values were lost from
         # other arrays.
         lost_map = np.empty([len(c) for c in darray['flags'].chunks], dtype="O")
